@@ -279,8 +279,14 @@ func vfC05Prefix(s *vfRefSess, dir byte, total, bound int) string {
 	if len(got) > len(want) || !bytes.Equal(got, want[:len(got)]) {
 		return fmt.Sprintf("VIOL[c05-not-a-prefix]: victim delivered %d bytes that are not a prefix of what the peer sent", len(got))
 	}
-	if len(got) > bound {
-		return fmt.Sprintf("VIOL[c05-delivered-past-damage]: victim delivered %d bytes, but only %d bytes were carried by frames that arrived intact before the first damaged frame", len(got), bound)
+	// "at most the intact data that preceded it" bounds what is handed over until
+	// the error is reported.  Reads made after the error are only bound by the
+	// prefix property: when the damage happens to have the length of a frame
+	// (e.g. 20 bytes inserted behind the length field of a 20-byte box) the
+	// decoder fails on it once and then opens the genuine frames again.
+	_, after := s.Ep.AfterErr()
+	if len(got)-after > bound {
+		return fmt.Sprintf("VIOL[c05-delivered-past-damage]: victim delivered %d bytes before it reported an error, but only %d bytes were carried by frames that arrived intact before the first damaged frame", len(got)-after, bound)
 	}
 	return ""
 }
@@ -547,8 +553,8 @@ func TestVerifC05Blind(t *testing.T) {
 		if len(got) > len(full) || !bytes.Equal(got, full[:len(got)]) {
 			rt.Fatalf("VIOL[c05-not-a-prefix]: receiver delivered %d bytes that are not a prefix of what the peer wrote (%s at %d)", len(got), kind, off)
 		}
-		if len(got) > bound {
-			rt.Fatalf("VIOL[c05-delivered-past-damage]: receiver delivered %d bytes; frames complete before the damage at ciphertext offset %d carry %d (%s)", len(got), off, bound, kind)
+		if _, after := receiver.AfterErr(); len(got)-after > bound {
+			rt.Fatalf("VIOL[c05-delivered-past-damage]: receiver delivered %d bytes before it reported an error; frames complete before the damage at ciphertext offset %d carry %d (%s)", len(got)-after, off, bound, kind)
 		}
 		rerr := receiver.ReadErr()
 		if rerr == nil || errors.Is(rerr, io.EOF) {
